@@ -714,10 +714,118 @@ def rule_subset_enum(ctx):
 BITVEC = "board::bitboard::<impl std::convert::From<board::bitboard::Bitboard> for std::vec::Vec<board::square::Square>>::from"
 
 
+def pops_bits(ix, cb, inputs=None):
+    """Walk a `next`-like body (a closure handed to iter::from_fn, or Iterator::next of a small struct) for both outcomes of
+    its emptiness test: with the mask empty it returns None and touches nothing; otherwise it returns
+    Some(Square::from(index of the lowest set bit)) and clears exactly that bit, once.  Returns (None, mask expression) or
+    (reason, None)."""
+    from . import cases
+    run = cases.run(ix, cb, inputs or {})
+    paths = [p for p in run.paths if p.end not in ("panic", "unreachable")]
+    if run.overflow or len(paths) != 2 or not all(p.end == "return" for p in paths):
+        return "it does not have exactly two outcomes", None
+    seen = {}
+    for p in paths:
+        conds = [cases.cond_truth(c) for c in p.conds]
+        if len(conds) != 1:
+            return "an outcome depends on %d tests, not on one emptiness test of the mask" % len(conds), None
+        d, t = conds[0]
+        if d[0] == "call" and d[1].endswith("Bitboard::is_empty") and len(d[2]) == 1:
+            mask, empty = mir.strip_copies(mir.strip_refs(d[2][0])), t
+        elif d[0] == "bin" and d[1] in ("Eq", "Ne") and d[3][0] == "const" and d[3][1] == 0:
+            mask, empty = mir.strip_copies(d[2]), (t if d[1] == "Eq" else (None if t is None else not t))
+        else:
+            return "its test `%s` is not an emptiness test" % expr_str(d)[:60], None
+        if empty is None:
+            return "its test is not two-way", None
+        pops = [e for e in p.events if e[0] == "call" and e[2].endswith("Bitboard::drop_forward")]
+        tz = [e for e in p.events if e[0] == "call" and e[2].endswith("::trailing_zeros")]
+        stores = [e for e in p.events if e[0] == "store"]
+        r = mir.strip_copies(p.ret) if p.ret is not None else ("?",)
+        if empty:
+            if not (r[0] == "agg" and r[2] == "None" and not pops and not stores):
+                return "with the mask empty it yields `%s` (or writes something)" % expr_str(r)[:60], None
+        else:
+            v = mir.strip_copies(r[3][0]) if r[0] == "agg" and r[2] == "Some" and len(r[3]) == 1 else ("?",)
+            a = mir.strip_copies(v[2][0]) if v[0] == "call" and v[1].endswith("Square as std::convert::From<u8>>::from") and len(v[2]) == 1 else ("?",)
+            while a[0] == "cast":
+                a = mir.strip_copies(a[1])
+            if pops:
+                good = len(pops) == 1 and not stores and a[0] == "call" and a[1].endswith("Bitboard::drop_forward") and mir.strip_copies(mir.strip_refs(pops[0][3][0])) == mask
+            else:
+                # index read first, then `m &= m - 1`, and that is the only write
+                good = len(tz) == 1 and len(stores) == 1 and a[0] == "call" and a[1].endswith("::trailing_zeros") and mir.strip_copies(a[2][0]) == mask and mir.strip_copies(tz[0][3][0]) == mask
+                if good:
+                    st = stores[0]
+                    val = mir.strip_copies(st[3]) if len(st) > 3 else ("?",)
+                    good = p.events.index(tz[0]) < p.events.index(st) and val[0] == "bin" and val[1] == "BitAnd" and any(
+                        mir.strip_copies(x) == mask and y[0] == "bin" and y[1].startswith("Sub") and mir.strip_copies(y[2]) == mask and y[3][0] == "const" and y[3][1] == 1 for x, y in ((val[2], val[3]), (val[3], val[2])))
+                    good = good and (st[2] == expr_str(mask) if isinstance(st[2], str) else mir.strip_copies(st[2]) == mask)
+            if not good:
+                return "with the mask not empty it yields `%s` after %d pop(s) and %d write(s)" % (expr_str(r)[:70], len(pops), len(stores)), None
+        if empty in seen and seen[empty] != mask:
+            return "the two outcomes test different masks", None
+        seen[empty] = mask
+    if set(seen) != {True, False} or seen[True] != seen[False]:
+        return "the emptiness test does not decide between None and Some", None
+    return None, seen[True]
+
+
+def bit_iterators(ix):
+    """Iterator types of the crate that yield the squares of a mask: a struct with one field (a Bitboard or its u64) whose
+    `next` pops the lowest set bit (`pops_bits`).  {type path: (field name, field type)}; the verdict per candidate type is in
+    `bit_iterator_verdicts`."""
+    key = ("bit_iterators", id(ix))
+    if key in _BIT_ITERS:
+        return _BIT_ITERS[key]
+    import re
+    out, verdicts = {}, {}
+    for k, body in ix.bodies.items():
+        m = re.match(r"^<(.+) as std::iter::Iterator>::next$", k) or re.match(r"^.*::<impl std::iter::Iterator for (.+)>::next$", k)
+        if not m:
+            continue
+        a = ix.adts.get(m.group(1))
+        if a is None or a["kind"] != "Struct" or len(a["variants"]) != 1 or len(a["variants"][0]["fields"]) != 1:
+            continue
+        f = a["variants"][0]["fields"][0]
+        if f["ty"] not in ("board::bitboard::Bitboard", "u64"):
+            continue
+        why, mask = pops_bits(ix, body)
+        if why is None:
+            mm = mask
+            while mm[0] == "field" and mm[-1] == "0" and f["ty"] != "u64" and len(mm) == 3:
+                mm = mir.strip_copies(mm[1])
+            if not (mm[0] == "field" and mm[2:] == (f["name"],) and mir.strip_copies(mir.strip_refs(mm[1])) in (("deref", ("arg", body.local_name(1))), ("arg", body.local_name(1)))):
+                why = "the mask it pops is `%s`, not its own field" % expr_str(mask)[:60]
+        verdicts[m.group(1)] = (why, body)
+        if why is None:
+            out[m.group(1)] = (f["name"], f["ty"])
+    _BIT_ITERS[key] = out
+    _BIT_ITERS[("verdicts", id(ix))] = verdicts
+    return out
+
+
+_BIT_ITERS = {}
+
+
+def bit_iterator_over(ix, e):
+    """If `e` is a value of a verified bit-iterator type built over a mask, that mask (a Bitboard-valued expression; `m.0` is
+    reduced to m); else None."""
+    e = mir.strip_copies(e)
+    its = bit_iterators(ix)
+    if e[0] == "agg" and e[1] in its and len(e[3]) == 1:
+        m = mir.strip_copies(e[3][0])
+        if its[e[1]][1] == "u64" and m[0] == "field" and m[-1] == "0" and len(m) == 3:
+            m = mir.strip_copies(m[1])
+        elif its[e[1]][1] == "u64":
+            return None
+        return m
+    return None
+
+
 def _bit_iteration_from_fn(ctx, b, sym):
     """The generator spelling: `iter::from_fn(|| (!rest.is_empty()).then(|| Square::from(rest.drop_forward() as u8))).collect()`.
     from_fn calls the closure until it returns None; the closure is walked for both outcomes of its emptiness test."""
-    from . import cases
     ret = mir.strip_copies(sym.local(0))
     shape = ret[0] == "call" and ret[1] == "std::iter::Iterator::collect" and len(ret[2]) == 1 and ret[2][0][0] == "call" and ret[2][0][1] == "std::iter::from_fn" and len(ret[2][0][2]) == 1 and ret[2][0][2][0][0] == "closure"
     ctx.check(shape, "bit-iteration:once-per-set-bit", "the result is from_fn(closure).collect()", b.where(0), bad_what="Vec<Square>::from(Bitboard) is `%s`: not a form this rule reads" % expr_str(ret)[:100])
@@ -736,33 +844,16 @@ def _bit_iteration_from_fn(ctx, b, sym):
         ok = init is not None and init[0] == "arg" and b.locals[ml[0]]["ty"] == "board::bitboard::Bitboard"
         why = "the popped mask does not start as the argument"
     if ok:
-        run = cases.run(ctx.ix, cb, {})
-        paths = [p for p in run.paths if p.end not in ("panic", "unreachable")]
-        ok = not run.overflow and len(paths) == 2 and all(p.end == "return" for p in paths)
-        why = "the closure does not have exactly two outcomes"
-        seen = set()
-        for p in paths if ok else ():
-            conds = [cases.cond_truth(c) for c in p.conds]
-            tests = [(d, t) for d, t in conds if d[0] == "call" and d[1].endswith("Bitboard::is_empty")]
-            pops = [e for e in p.events if e[0] == "call" and e[2].endswith("Bitboard::drop_forward")]
-            stores = [e for e in p.events if e[0] == "store"]
-            r = mir.strip_copies(p.ret) if p.ret is not None else ("?",)
-            if len(tests) != 1 or len(conds) != 1 or stores or mir.strip_refs(tests[0][0][2][0]) != (mir.strip_refs(pops[0][3][0]) if pops else mir.strip_refs(tests[0][0][2][0])):
-                ok, why = False, "an outcome of the closure depends on more than one emptiness test of the mask, or writes something"
-                break
-            if tests[0][1] is True:
-                good = r[0] == "agg" and r[2] == "None" and not pops
-            else:
-                v = mir.strip_copies(r[3][0]) if r[0] == "agg" and r[2] == "Some" and len(r[3]) == 1 else ("?",)
-                a = mir.strip_copies(v[2][0]) if v[0] == "call" and v[1].endswith("Square as std::convert::From<u8>>::from") and len(v[2]) == 1 else ("?",)
-                while a[0] == "cast":
-                    a = mir.strip_copies(a[1])
-                good = len(pops) == 1 and a[0] == "call" and a[1].endswith("Bitboard::drop_forward")
-            seen.add(tests[0][1])
-            if not good:
-                ok, why = False, "with the mask %s the closure yields `%s` after %d pop(s)" % ("empty" if tests[0][1] else "not empty", expr_str(r)[:80], len(pops))
-                break
-        ok = ok and seen == {True, False}
+        why, mask = pops_bits(ctx.ix, cb)
+        ok = why is None
+        if ok:
+            mm = mask
+            while mm[0] in ("deref", "ref"):
+                mm = mir.strip_copies(mm[1])
+            ok = mm[0] == "field" and mm[-1] == "0" and mir.strip_copies(mir.strip_refs(mm[1])) in (("deref", ("arg", cb.local_name(1))), ("arg", cb.local_name(1)))
+            why = "the closure pops `%s`, not the mask it captured" % expr_str(mask)[:60]
+        else:
+            why = "the closure: " + why
     ctx.check(ok, "bit-iteration:pushes-that-square", "the closure yields None exactly when the mask is empty and otherwise Some(Square::from(index of the lowest set bit)), popping that bit once", b.where(0),
               bad_what="Vec<Square>::from(Bitboard): %s; some set bits yield no square, or a square twice" % why)
 
@@ -770,8 +861,23 @@ def _bit_iteration_from_fn(ctx, b, sym):
 def rule_bit_iteration(ctx):
     """`Vec<Square>::from(Bitboard)`, through which every generator turns its target mask into destination squares, yields
     the square of every set bit exactly once, lowest first."""
+    ix = ctx.ix
+    # iterator types that hand out the squares of a mask one by one (`for s in mask.squares()`, `.squares().map(..)`)
+    its = bit_iterators(ix)
+    for ty, (why, nb) in sorted(_BIT_ITERS.get(("verdicts", id(ix)), {}).items()):
+        ctx.functions.add(nb.key)
+        ctx.check(why is None, "bit-iterator:%s" % ty, "%s::next yields None exactly when its mask is empty and otherwise the square of the lowest set bit, clearing that bit once" % C.short(ty), nb.where(0),
+                  bad_what="%s::next: %s; iterating a mask with it misses squares or repeats them" % (C.short(ty), why))
+    if BITVEC not in ix.bodies and its:
+        ctx.ok("bit-iteration:by-iterator-types", "masks are turned into squares by the iterator type(s) %s only (no Vec<Square>::from(Bitboard))" % ", ".join(sorted(C.short(t) for t in its)))
+        return
     b = ctx.body(BITVEC)
     sym = ctx.sym(b)
+    ret0 = mir.strip_copies(sym.local(0))
+    if ret0[0] == "call" and ret0[1] == "std::iter::Iterator::collect" and len(ret0[2]) == 1 and bit_iterator_over(ix, ret0[2][0]) is not None:
+        m = bit_iterator_over(ix, ret0[2][0])
+        ctx.check(m[0] == "arg", "bit-iteration:once-per-set-bit", "the list is collected from a verified bit iterator over the argument", b.where(0), bad_what="Vec<Square>::from(Bitboard) collects the squares of `%s`, not of its argument" % expr_str(m)[:60])
+        return
     pushes = [(bi, t) for bi, t in b.calls() if callee_is(t, "std::vec::Vec::push", "std::vec::Vec::<T, A>::push")]
     if not pushes and [t for _b, t in b.calls() if callee_is(t, "std::iter::from_fn")]:
         return _bit_iteration_from_fn(ctx, b, sym)
